@@ -116,6 +116,7 @@ func main() {
 		if err != nil {
 			fatal(err.Error())
 		}
+		rootSwitch, profileSwitch := len(root) > 0, len(profile) > 0
 		var line string
 		for cursor.ReadNonBlankNonCommentLine(&line) {
 			needValue := false
@@ -123,10 +124,14 @@ func main() {
 			switch key {
 			case "root":
 				needValue = true
-				root = value
+				if !rootSwitch {
+					root = value
+				}
 			case "profile":
 				needValue = true
-				profile = value
+				if !profileSwitch {
+					profile = value
+				}
 			case "atoms":
 				needValue = true
 				includeAtoms = value + " " + includeAtoms
